@@ -25,4 +25,16 @@ PROPS = {
                      "writes / copy / negate / getters, ~10% malformed) on n = 1..5 over several live objects; non-trivial = history with ≥ 6 distinct "
                      "(operation, outcome) kinds; distinct by history"),
             "quick_s": 60, "thorough_s": 600},
+    "C18": {"lean": ["ICG.Props.C18", "ICG.Props.C18pred"], "streams": [("corr_bits", "C18")],
+            "rule": ("all coalitions n=1..8 (thorough 1..10): every Coalition operator with int operand, len, players, from_players (shuffled, duplicates), "
+                     "inverted, object/id sub-/super-enumerations, coalition_ids.players/get_size (+ ids >= 2^n -> err:assert), helpers; all pairs n<=5 (<=6): "
+                     "& | - in == disjoint; rows and size-sorted order of _get_sub_super_coalition_structure n<=6 (<=8); predicates: ALL 6912 games of the n=3 "
+                     "lattice (non-singletons -1..2, singletons 0/+-1, v(0)=0), random int/dyadic games n=3..5 (SA, SAM, convex, additive, broken, v(0)!=0) and "
+                     "tolerance-boundary games (dyadic family exact in float64; default-tolerance family with margin >= 2^-40*scale). non-trivial = coalition "
+                     "with >=2 players and not grand; incomparable overlapping pair; game whose verdicts (sa, mono, supermod) are not all equal or tolerance "
+                     "game with margin < 2^-20; distinct by (part, n, ids/values)"),
+            "assumptions": ["predicates are modelled for complete games (get_values() of an incomplete game raises before any predicate logic; that is C17)",
+                            "float rounding is outside the theorems; predicate inputs are exact in float64 or have a margin far above rounding"],
+            "trusted": ["enumerations compared as sorted lists, all_sorted as size-sorted permutation, check_supermodularity as none/viol (triple checked by the oracle)"],
+            "quick_s": 60, "thorough_s": 600},
 }
